@@ -73,6 +73,10 @@ func NewBuilder(dir string, numItems uint, targetFileSize uint64) (*Builder, err
 // Index generation will fail if the same key is inserted twice.
 // The writer must not pass a value greater than targetFileSize.
 func (b *Builder) Insert(key []byte, value [36]byte) error {
+	if len(key) > math.MaxUint16 {
+		// the key length is recorded in 16 bits in the temporary bucket file
+		return fmt.Errorf("key is too long: %d bytes (max %d)", len(key), math.MaxUint16)
+	}
 	return b.buckets[b.Header.BucketHash(key)].writeTuple(key, value)
 }
 
